@@ -232,6 +232,8 @@ Ret(kind, hasOut, out, hasErr, err, textOk) ==
      /\ delivered' = nd
      /\ viol' = viol
           \cup V(kind # "panic", "C01_panic")
+          \cup V(limit >= 0 => kind # "panic", "C03_limited_read_panics")
+          \cup V(dl # NoTime => kind # "panic", "C04_timed_read_panics")
           \cup V(textOk, "C02_text_is_lossy_decoding_of_the_bytes")
           \cup V(kind # "panic" => \A o \in Outs : has[o] = (o \in piped), "C02_absent_iff_not_piped")
           \cup V(\A o \in Outs : IsPrefixOf(nd[o], written[o]), "C02_out_exact")
@@ -363,6 +365,14 @@ PWriteEpipe ==
   /\ noProg' = 0
   /\ UNCHANGED <<piped, cap, k, short, input, flood, buf, pOpen, cOpen, cPend, cAlive, now, inCall, limit, dl,
                  sawEof, written, delivered, inAcc, cRecv, cEof, pwDone, sanity>>
+
+\* a read() or write() of the library had to wait (from `since` until now) before it returned.  Such a call cannot be
+\* cut short: under a deadline, sitting in one across the deadline means the limit is not honoured -- the exchange is
+\* at the child's mercy (C04: "no later than t plus one bounded I/O step")
+PIoWait(since) ==
+  /\ viol' = viol \cup V(~(inCall /\ dl # NoTime /\ TLt(TAdd(dl, Ms(1)), now)), "C04_blocked_in_io_past_the_deadline")
+  /\ UNCHANGED <<piped, cap, k, short, input, flood, buf, pOpen, cOpen, cPend, cAlive, now, inCall, limit, dl,
+                 sawEof, written, delivered, inAcc, cRecv, cEof, pwDone, after, noProg, sanity>>
 
 \* a system call of the library failed with EINTR (nothing happened in the kernel)
 PEintr == UNCHANGED envvars
